@@ -45,11 +45,13 @@ func c15Check(base, target any) { c15CheckX(base, target, true) }
 func c15CheckX(base, target any, excludeKnown bool) {
 	vObserve("base", base)
 	vObserve("target", target)
-	region := vDiffRegion(base, target)
-	if region != "" && excludeKnown {
-		vCover("known." + region)
-		vAssume(false) // known finding: listed in known_findings.json, not re-reported
+	// The four regions C15-R1..R4 were known findings; they were repaired in
+	// /repo (see known_findings.json), so pairs inside them are asserted like
+	// any other. The region predicate is kept to show that they are reached.
+	if region := vDiffRegion(base, target); region != "" {
+		vCover("was." + region)
 	}
+	_ = excludeKnown
 	layer, err := diffDoc(bkl.NewDocumentWithData("t", vCopy(target)), bkl.NewDocumentWithData("b", vCopy(base)))
 	vAssert("C15.differr", err == nil)
 	vObserve("layer", layer)
